@@ -93,10 +93,13 @@ def _remove_trailing(children):
 def _valid_child_name(child_name, expected_parent):
     try:
         parent, index = child_name.rsplit('_', 1)
-        int(index)
+        position = int(index)
     except (ValueError, AttributeError):
         return False
     else:
+        # only the canonical spelling names a position: children are looked up as <parent>_<position>
+        if str(position) != index or position < 1:
+            return False
         if str(parent).upper() != str(expected_parent).upper():
             return False
         return True
